@@ -56,6 +56,11 @@ class Program:
                 u["crate"] = name
                 self.unsafe_blocks.append(u)
         self._callers = None
+        self.renamed = []
+        tb = os.path.join(os.path.dirname(os.path.dirname(os.path.abspath(__file__))), "pinned_names.json")
+        if os.path.exists(tb) and not os.environ.get("VERIF_NO_CANON"):
+            with open(tb) as fh:
+                self.renamed = canonicalise_private_names(self, json.load(fh))
 
     # ------------------------------------------------------------ lookup
     def body(self, key):
@@ -172,6 +177,170 @@ class Program:
                 return fh.read().splitlines()[int(line) - 1].strip()
         except Exception:
             return ""
+
+
+def walk_places(x):
+    """Yield every place dict ({"l":..,"pj":[..]}) nested in a statement/terminator JSON."""
+    if isinstance(x, dict):
+        if "l" in x and "pj" in x:
+            yield x
+        for v in x.values():
+            yield from walk_places(v)
+    elif isinstance(x, list):
+        for v in x:
+            yield from walk_places(v)
+
+
+def _field_read_by(P, fn_key, adt):
+    b = P.fns.get(fn_key)
+    if b is None:
+        return None
+    names = set()
+    for blk in b["blocks"]:
+        for s in blk["s"]:
+            for pl in walk_places(s):
+                for e in pl["pj"]:
+                    if isinstance(e, dict) and e.get("a") == adt:
+                        names.add(e.get("n"))
+    return names.pop() if len(names) == 1 else None
+
+
+def canonicalise_private_names(P, table):
+    """Private names are not part of the program's meaning.  Items of the current tree that the pinned tree does not know by name are matched with
+    the pinned items that are missing, by what identifies them otherwise (a field: its struct and type, then its accessor, then its position among
+    the fields of that type; a static/const or a non-pub function: its parent path and type / signature, when unique), and get the pinned name
+    back in the facts - a bijective renaming.  Returns the renamings applied."""
+    import re
+    applied = []
+    # ---- struct fields
+    fmap = {}
+    for adt, pinned in table.get("adts", {}).items():
+        a = P.adts.get(adt)
+        if a is None or a.get("kind") != "struct":
+            continue
+        cur = a["variants"][0]["fields"]
+        cur_names = {f["name"] for f in cur}
+        missing = [pf for pf in pinned if pf["name"] not in cur_names]
+        known = {pf["name"] for pf in pinned}
+        fresh = [f for f in cur if f["name"] not in known]
+        if not missing or not fresh:
+            continue
+        m = {}
+        for ty in sorted({pf["ty"] for pf in missing}):
+            pm = [pf for pf in missing if pf["ty"] == ty]
+            cf = [f for f in fresh if f["ty"] == ty]
+            if not cf:
+                continue
+            if len(pm) == 1 and len(cf) == 1:
+                m[cf[0]["name"]] = pm[0]["name"]
+                continue
+            rest_p, rest_c = list(pm), list(cf)
+            for pf in pm:
+                got = _field_read_by(P, pf["accessor"], adt) if pf.get("accessor") else None
+                if got and any(f["name"] == got for f in rest_c):
+                    m[got] = pf["name"]
+                    rest_p.remove(pf)
+                    rest_c = [f for f in rest_c if f["name"] != got]
+            if len(rest_p) == len(rest_c):
+                for pf, f in zip(rest_p, rest_c):       # declaration order
+                    m[f["name"]] = pf["name"]
+        if m and len(set(m.values())) == len(m):
+            fmap[adt] = m
+            for f in cur:
+                if f["name"] in m:
+                    applied.append(f"{adt}.{f['name']} -> {m[f['name']]}")
+                    f["src_name"], f["name"] = f["name"], m[f["name"]]
+    if fmap:
+        for b in list(P.fns.values()) + list(P.const_bodies.values()):
+            for blk in b["blocks"]:
+                for s in blk["s"] + [blk["t"]]:
+                    for pl in walk_places(s):
+                        for e in pl["pj"]:
+                            if isinstance(e, dict) and e.get("a") in fmap and e.get("n") in fmap[e["a"]]:
+                                e["n"] = fmap[e["a"]][e["n"]]
+    # ---- declaration order of struct fields (layout is recorded per field; nothing else depends on the order): pinned order, new fields last
+    perm = {}
+    for adt, pinned in table.get("adts", {}).items():
+        a = P.adts.get(adt)
+        if a is None or a.get("kind") != "struct" or "IS_C" in str(a.get("repr", "")) and False:
+            continue
+        cur = a["variants"][0]["fields"]
+        order = [pf["name"] for pf in pinned]
+        names = [f["name"] for f in cur]
+        want = [n for n in order if n in names] + [n for n in names if n not in order]
+        if want != names:
+            perm[adt] = [names.index(n) for n in want]          # new position -> old position
+            a["variants"][0]["fields"] = [cur[i] for i in perm[adt]]
+            applied.append(f"{adt}: field order {names} -> {want}")
+    if perm:
+        inv = {adt: {old: new for new, old in enumerate(pm)} for adt, pm in perm.items()}
+        def fix(x):
+            if isinstance(x, dict):
+                if isinstance(x.get("a"), str) and x["a"] in inv and isinstance(x.get("f"), int):
+                    x["f"] = inv[x["a"]].get(x["f"], x["f"])
+                if x.get("k") == "agg" and x.get("ak") == "adt" and isinstance(x.get("adt"), str) and x["adt"] in perm and len(x.get("ops", [])) == len(perm[x["adt"]]):
+                    x["ops"] = [x["ops"][i] for i in perm[x["adt"]]]
+                for v in x.values():
+                    fix(v)
+            elif isinstance(x, list):
+                for v in x:
+                    fix(v)
+        for b in list(P.fns.values()) + list(P.const_bodies.values()):
+            fix(b["blocks"])
+    # ---- statics / consts and non-pub functions: rename keys
+    kmap = {}
+    vals = table.get("values", {})
+    gone = [k for k in vals if k not in P.values]
+    new = [k for k in P.values if k not in vals and "::{" not in k and "promoted[" not in k]
+    for k in gone:
+        parent = k.rsplit("::", 1)[0]
+        c = [n for n in new if n.rsplit("::", 1)[0] == parent and P.values[n].get("kind") == vals[k]["kind"] and P.values[n].get("ty") == vals[k]["ty"]]
+        g = [x for x in gone if x.rsplit("::", 1)[0] == parent and vals[x]["kind"] == vals[k]["kind"] and vals[x]["ty"] == vals[k]["ty"]]
+        if len(c) == 1 and len(g) == 1:
+            kmap[c[0]] = k
+    fns = table.get("fns", {})
+    gone = [k for k in fns if k not in P.fns and fns[k].get("vis") != "pub"]
+    new = [k for k, b in P.fns.items() if k not in fns and "::{" not in k and "promoted[" not in k and b.get("vis") != "pub" and b.get("kind") in ("fn", "assoc_fn")]
+    sig = lambda b: [b["locals"][i]["ty"] for i in range(b.get("argc", 0) + 1)]
+    for k in gone:
+        parent = k.rsplit("::", 1)[0]
+        same = lambda n: n.rsplit("::", 1)[0] == parent and sig(P.fns[n]) == fns[k]["sig"] and bool(P.fns[n].get("unsafe")) == fns[k]["unsafe"]
+        c = [n for n in new if same(n)]
+        g = [x for x in gone if x.rsplit("::", 1)[0] == parent and fns[x]["sig"] == fns[k]["sig"] and fns[x]["unsafe"] == fns[k]["unsafe"]]
+        if len(c) == 1 and len(g) == 1:
+            kmap[c[0]] = k
+    if kmap:
+        rx = re.compile(r"(?<![\w:])(" + "|".join(re.escape(k) for k in sorted(kmap, key=len, reverse=True)) + r")(?![\w])")
+        sub = lambda s: rx.sub(lambda mm: kmap[mm.group(1)], s) if isinstance(s, str) and "::" in s else s
+
+        def deep(x):
+            if isinstance(x, dict):
+                for kk in list(x.keys()):
+                    v = x[kk]
+                    if isinstance(v, str):
+                        if kk not in ("sp", "span", "def_span"):
+                            x[kk] = sub(v)
+                    else:
+                        deep(v)
+            elif isinstance(x, list):
+                for i, v in enumerate(x):
+                    if isinstance(v, str):
+                        x[i] = sub(v)
+                    else:
+                        deep(v)
+        for d in (P.fns, P.const_bodies, P.values, P.adts):
+            deep(d)
+            for kk in list(d.keys()):
+                nk = sub(kk)
+                if nk != kk and nk not in d:
+                    d[nk] = d.pop(kk)
+                    if isinstance(d[nk], dict) and d[nk].get("key") == kk:
+                        d[nk]["key"] = nk
+        deep(P.impls)
+        deep(P.unsafe_blocks)
+        P.crate_of = {sub(k): v for k, v in P.crate_of.items()}
+        applied += [f"{a} -> {b}" for a, b in kmap.items()]
+    return applied
 
 
 def walk_operands(x):
